@@ -65,7 +65,8 @@ func runNtpEnc(tags string, a []Val) {
 // ntp.dec: bytes, [fields of the packet decoded into] -> ok, fields, re-encoded, leap, version, mode
 func runNtpDec(tags string, a []Val) {
 	p := ntpFromFields(a[1])
-	err := ntp.DecodePacket(&p, a[0].B)
+	var err error
+	watchInput(inNtp, a[0].B, nil, func() { err = ntp.DecodePacket(&p, a[0].B) })
 	var b []byte
 	ntp.EncodePacket(&b, &p)
 	w.Case("ntp.dec", tags, fmtVals(a), fmtVals([]Val{VBool(err == nil), ntpFields(&p), VBy(b),
